@@ -34,7 +34,7 @@ def quad(world, ch, idx):
         return None
     k_resp = (_addr_raw(ch['x_resp_addr']), proto, ch['spi_resp'])
     k_init = (_addr_raw(ch['x_init_addr']), proto, ch['spi_init'])
-    ii, ir = idx[ch['x_init']], idx[ch['x_resp']]
+    ii, ir = idx.get(ch['x_init'], {}), idx.get(ch['x_resp'], {})      # a reference peer has no kernel
     return ii.get(k_resp), ir.get(k_resp), ii.get(k_init), ir.get(k_init)
 
 
